@@ -511,7 +511,7 @@ func narrowIntBits(t types.Type) int {
 // set bits); held in an 8- or 16-bit integer it wraps after 2^8 / 2^16 increments and the result is silently too
 // small. Accepted: a loop whose trip count is bounded by a constant that fits the type.
 func ReportCountWidth(w *World, r *Report, names ...string) {
-	r.Rule("R-COUNTWIDTH", "no counter advanced inside a loop (a loop-carried x = x + k, or a memory cell c[j] = c[j] + k) has an integer type narrower than 32 bits unless the loop's trip count is bounded by a constant that fits: the number of increments is input-controlled and a narrow counter wraps silently")
+	r.Rule("R-COUNTWIDTH", "no counter advanced by a constant step inside a loop (a loop-carried x = x + k, or a memory cell c[j] = c[j] + k) has an integer type narrower than 32 bits unless the loop's trip count is bounded by a constant that fits: the number of increments is input-controlled and a narrow counter wraps silently")
 	for _, n := range names {
 		fn := findFunc(w, n)
 		if fn == nil || fn.Blocks == nil {
@@ -560,6 +560,12 @@ func ReportCountWidth(w *World, r *Report, names ...string) {
 			bw := narrowIntBits(bo.Type())
 			if bw == 0 {
 				return
+			}
+			// a counter advances by a constant step; x += <value> in a narrow type is packing or checksum arithmetic
+			if _, kx := bo.X.(*ssa.Const); !kx {
+				if _, ky := bo.Y.(*ssa.Const); !ky {
+					return
+				}
 			}
 			carried := false
 			for _, op := range []ssa.Value{bo.X, bo.Y} {
